@@ -98,6 +98,26 @@ func regPrelude(pkg string) {
 		s.heap[id].Virtual = true
 		return SliceV{Obj: id, Len: n, Cap: n}
 	})
+	simple(p+"vKernelDropHandles", func(s *State, a []Value) Value {
+		// process death in the kernel model: every open file description is closed, locks released, mappings gone
+		if s.kern != nil {
+			for fd, o := range s.kern.ofds {
+				if !o.closed {
+					o.closed = true
+					if in := s.kern.inodes[o.ino]; in.lockOFD == fd {
+						in.lockOFD = 0
+					}
+				}
+			}
+			for id, m := range s.kern.maps {
+				if m.live {
+					m.live = false
+					s.wobj(id).Tag = "unmapped"
+				}
+			}
+		}
+		return nil
+	})
 	simple(p+"vAssume", func(s *State, a []Value) Value {
 		s.assume(s.asExpr(a[0]))
 		return nil
